@@ -29,6 +29,10 @@ THEOREMS = [
     "Mashu.Hooks.union_double_pre_hook",
     "Mashu.Hooks.union_single_pre_hook_mixin",
     "Mashu.Hooks.context_lost_across_plain_class",
+    "Mashu.DispatchCall.invoked_once",
+    "Mashu.DispatchCall.warm_eq_cold",
+    "Mashu.DispatchCall.broad_guard_calls_twice",
+    "Mashu.DispatchCall.lookup_only_pinned",
 ]
 RULE = (
     "family of 2-4 classes, each with a random subset of the four hooks, ADD_SERIALIZATION_CONTEXT on/off, mixin (dict/orjson/msgpack) or plain; "
@@ -486,6 +490,7 @@ def run_field_variant_errors(ctx, n):
     from mashumaro.types import Discriminator
 
     rng = ctx.rng
+    model_lines, model_metas = [], []
     for i in range(n):
         mode = rng.choice(["config", "annotated-plain", "annotated-mixin"])
         exc = rng.choice([KeyError, AttributeError, ValueError])
@@ -530,18 +535,30 @@ def run_field_variant_errors(ctx, n):
                 r = call({"type": "v1", "a": 2, "boom": True})
                 out = "ok:" + type(getattr(r, "x", r)).__name__
             except Exception as e:  # noqa
+                # the exception below the InvalidFieldValue wrapper(s) — not further: on a cold registry the lookup's own
+                # KeyError is the implicit context of whatever is raised while it is handled
                 root = e
-                while root.__cause__ is not None or (root.__context__ is not None and not root.__suppress_context__):
+                while type(root).__name__ == "InvalidFieldValue" and (root.__cause__ is not None or root.__context__ is not None):
                     root = root.__cause__ or root.__context__
                 out = f"{type(e).__name__}<-{type(root).__name__}"
             hooks = [t for t in trace if t.endswith("_V1")]
         finally:
             for nm in names:
                 globals().pop(nm, None)
+        model_lines.append({"op": "dispatchcall", "registered": warm, "exists": True,
+                            "beh": ([{"KeyError": "key", "AttributeError": "attr", "ValueError": "other"}[exc.__name__]] + (["returns"] if when == "first" else []))})
+        res_cls = "value" if out.startswith("ok:") else ("notfound" if "SuitableVariantNotFoundError" in out else "raised:" + {"KeyError": "key", "AttributeError": "attr", "ValueError": "other"}.get(out.split("<-")[-1], "?"))
+        model_metas.append((case, len(hooks), res_cls))
         if len(hooks) != 1:
             ctx.violation(case, {"outcome": out, "hook_runs": len(hooks)}, "the selected variant's pre-deserialize hook runs exactly once per call", "an exception raised inside the variant made the dispatcher call it again", lambda f: False)
         elif "SuitableVariantNotFoundError" in out:
             ctx.violation(case, {"outcome": out}, "an exception raised inside the selected variant is not reported as a missing variant", "exception from inside the variant relabelled SuitableVariantNotFoundError", lambda f: False)
+    outs = ctx.model(model_lines) if model_lines else []
+    for (case, runs, res_cls), mo in zip(model_metas, outs or []):
+        if mo.get("invocations") != runs or mo.get("result") != res_cls:
+            ctx.disagreement(case, mo, {"invocations": runs, "result": res_cls}, "dispatchcall")
+        else:
+            ctx.bump("dispatch calls compared with the model")
 
 
 def run(ctx):
